@@ -582,6 +582,19 @@ CHECKS += [
          technique="lifted execution of default.qubit on z3 angle terms for the original and the transpiled circuit; z3 QF_NRA equality proofs; structural connectivity check"),
 ]
 
+CHECKS += [
+    dict(property_id="C33", category="other", engine=E1,
+         text="Partial (symbolic angles; circuits enumerated): 4 circuits with templates (QFT, AngleEmbedding, BasicEntanglerLayers), symbolic wrappers (Adjoint, Pow, Controlled with control "
+              "values, nested), a mid-circuit state preparation and 3 measurement sets (Hermitian, tensor-product and Sum observables, probabilities) with SYMBOLIC gate angles go through the REAL "
+              "preprocessing programs of default.qubit, default.mixed and reference.qubit. Every returned operation must be executable by the device under an independent criterion (matrix / "
+              "leading state preparation / declared operation set) and act on device wires; every returned circuit is evaluated by the matrix-route oracle (not the device simulator), the "
+              "program's post-processing is applied and z3 proves all results equal to the oracle's results for the original circuit for all angles; an operation without matrix and "
+              "decomposition must raise DeviceError.",
+         note=PROOF_NOTE + " Category 'other' (partial): execution by the device simulators (C26-C28), sampling programs, mid-circuit measurements (C21), gradient-specific programs and compiled / "
+              "external devices are outside; reference.qubit on the QFT circuit is decided in the thorough tier only. This check found F27 (default.mixed kept a non-leading StatePrep; fixed).",
+         technique="lifted execution of the devices' preprocessing programs on z3 angle terms; matrix-route oracle; z3 QF_NRA equality proofs plus structural support checks"),
+]
+
 _NOT_BUILT = "claimed in DESIGN.md §4 but its solver-based check is not built yet in this tree"
 NOT_APPLICABLE_REASONS = {
     "C11": "declared resources depend only on discrete configurations that must each be run concretely; no symbolic dimension",
@@ -591,7 +604,6 @@ NOT_APPLICABLE_REASONS = {
     "C29": "finite-shot sampling: statistical property",
     "C31": "parallel/seeded execution: OS scheduling, processes, threads",
     "C32": "result structure across devices/interfaces/diff methods: configuration matrix of torch/jax/autograd",
-    "C33": "device preprocessing: capability tables over discrete programs; the symbolic part (equivalence) is C12's",
     "C42": "program capture requires JAX tracing",
     "C48": "interface agnosticism: torch/jax/autograd kernels cannot carry solver terms",
     "C55": "Lie-algebra tools: rank/independence via SVD/least squares",
